@@ -33,8 +33,11 @@ US = _dt.timedelta(microseconds=1)
 class World:
     _STATIC: dict[tuple[int, str], tuple] = {}
 
-    def __init__(self, m: core.Mod, cls: str, transition=None, week=(0, 6), extra: dict[str, ast.FunctionDef] | None = None):
+    def __init__(self, m: core.Mod, cls: str, transition=None, week=(0, 6), extra: dict[str, ast.FunctionDef] | None = None,
+                 interpret_add: bool = False, base_offset: _dt.timedelta | None = None):
         self.m, self.cls, self.tr = m, cls, transition
+        self.O = O if base_offset is None else base_offset       # offset before the transition (0: a zone like Europe/London)
+        self.interpret_add = interpret_add      # add()/subtract() taken from the analysed source instead of being primitives
         key = (id(m), cls)
         if key not in World._STATIC:
             meths: dict[str, ast.FunctionDef] = dict(extra or {})
@@ -60,15 +63,25 @@ class World:
             World._STATIC[key] = (m, meths, props, consts, funcs, fields)
         _, self.meths, self.props, consts, funcs, self.class_fields = World._STATIC[key]
         self.tz = Stub(name="Scenario/Zone", _eqkey="tz", utcoffset=self._tz_utcoffset, convert=self._tz_convert)
+        if interpret_add:
+            import math
+            hm = core.pmod("helpers")
+            hfuncs = {st.name: st for st in hm.top() if isinstance(st, ast.FunctionDef)}
+            hglob = {"date": _dt.date, "datetime": _dt.datetime, "timedelta": _dt.timedelta, "copysign": math.copysign,
+                     "is_leap": lambda y: y % 4 == 0 and (y % 100 != 0 or y % 400 == 0), "DAYS_PER_MONTHS": core.const("constants", "DAYS_PER_MONTHS"),
+                     "RuntimeError": ValueError, "ValueError": ValueError}
+            self._add_duration = (hfuncs["add_duration"], {**hfuncs, "$globals": hglob})
         self.ctor = ClassStub(_new=self._construct, _isa=lambda v: isinstance(v, Obj), create=self._create, instance=lambda v, *a, **k: v)
         self.glob: dict[str, Any] = dict(funcs)
+        if interpret_add:
+            self.glob["add_duration"] = self._add_duration
         pend = Stub(datetime=self._create, date=lambda y, mo, d: self.date(_dt.date(y, mo, d)), instance=lambda v, *a, **k: v,
                     DateTime=self.ctor, Date=self.ctor, _WEEK_STARTS_AT=week[0], _WEEK_ENDS_AT=week[1])
         self.glob["$globals"] = {**consts, "WeekDay": WEEKDAY, "pendulum": pend, "ValueError": ValueError, "int": int, "str": str,
                                  "calendar": Stub(monthcalendar=_calendar.monthcalendar, monthrange=_calendar.monthrange),
                                  "datetime": Stub(datetime=ClassStub(_new=lambda *a, **k: _dt.datetime(*a, **k), _isa=lambda v: isinstance(v, _dt.datetime)),
                                                   timedelta=_dt.timedelta, date=_dt.date),
-                                 "DateTime": self.ctor, "Date": self.ctor}
+                                 "DateTime": self.ctor, "Date": self.ctor, "UTC": _dt.timezone.utc, "date": _dt.date, "timedelta": _dt.timedelta, "any": any}
 
     # -- the zone ----------------------------------------------------------------------------------------------------------
     def ambiguous(self, w: _dt.datetime) -> bool:
@@ -91,19 +104,19 @@ class World:
 
     def offset(self, w: _dt.datetime, fold: int) -> _dt.timedelta:
         if self.tr is None:
-            return O
+            return self.O
         kind, t, ln = self.tr
         if kind == "skip":
             if w < t:
-                return O
+                return self.O
             if w >= t + ln:
-                return O + ln
-            return O if fold == 0 else O + ln
+                return self.O + ln
+            return self.O if fold == 0 else self.O + ln
         if w < t - ln:
-            return O
+            return self.O
         if w >= t:
-            return O - ln
-        return O if fold == 0 else O - ln
+            return self.O - ln
+        return self.O if fold == 0 else self.O - ln
 
     def instant(self, v: Obj) -> _dt.datetime:
         d = vars(v)
@@ -111,21 +124,29 @@ class World:
 
     def from_instant(self, inst: _dt.datetime) -> tuple[_dt.datetime, int]:
         if self.tr is None:
-            return inst + O, 0
+            return inst + self.O, 0
         kind, t, ln = self.tr
-        ti = t - O                      # the instant of the transition
+        ti = t - self.O                      # the instant of the transition
         if inst < ti:
-            return inst + O, 0
+            return inst + self.O, 0
         if kind == "skip":
-            return inst + O + ln, 0
-        w = inst + O - ln
+            return inst + self.O + ln, 0
+        w = inst + self.O - ln
         return w, (1 if self.ambiguous(w) else 0)
 
     def _tz_utcoffset(self, native):
         return self.offset(native.replace(tzinfo=None, fold=0), native.fold)
 
     def _tz_convert(self, native, raise_on_unknown_times=False):
-        raise core.Unsupported("tz.convert() in the scenario world")
+        if native.tzinfo is _dt.timezone.utc:          # an instant: astimezone semantics
+            w, f = self.from_instant(native.replace(tzinfo=None))
+            return w.replace(fold=f)
+        if native.tzinfo is None:                        # a wall time to be normalised
+            w = native.replace(fold=0)
+            if self.skipped(w):
+                return self.resolve(w, native.fold)      # datetime arithmetic: fold 0
+            return native
+        raise core.Unsupported("tz.convert() of a value in another zone")
 
     # -- values ------------------------------------------------------------------------------------------------------------
     def _construct(self, *a, **k):
@@ -137,15 +158,23 @@ class World:
         f = dict(zip(names, a))
         f.update(k)
         fold = f.pop("fold", 0)
-        f.pop("tzinfo", None)
+        tzinfo = f.pop("tzinfo", None)
         w = _dt.datetime(**{n: f.get(n, 0) for n in names[:7]})
+        if tzinfo is not self.tz:
+            return self.datetime(w, fold, zone=self.other_zone(tzinfo))
         if self.skipped(w):
             raise core.Unsupported("DateTime(...) constructed directly on a skipped wall time")
         return self.datetime(w, fold)
 
-    def _create(self, year, month, day, hour=0, minute=0, second=0, microsecond=0, tz=None, fold=1, raise_on_unknown_times=False):
+    def _create(self, year, month, day, hour=0, minute=0, second=0, microsecond=0, tz="UTC (the default of create())", fold=1, raise_on_unknown_times=False):
         w = _dt.datetime(year, month, day, hour, minute, second, microsecond)
+        if tz is not self.tz:
+            # built in another zone than the scenario's (the UTC default, None, ...): no transition applies there
+            return self.datetime(w, fold, zone=self.other_zone(tz))
         return self.place(w, fold)
+
+    def other_zone(self, tz):
+        return Stub(name=f"{getattr(tz, 'name', tz)}", _eqkey=("other", str(getattr(tz, "name", tz))))
 
     def date(self, d: _dt.date) -> Obj:
         def set_(year=None, month=None, day=None):
@@ -157,15 +186,18 @@ class World:
         def subtract(years=0, months=0, weeks=0, days=0):
             return self.date(_shift(d, -years, -months, -weeks, -days))
         own = self.cls == "Date"
+        prim = dict(set=set_, replace=set_, on=set_, add=add, subtract=subtract)
+        if own and self.interpret_add:
+            del prim["add"], prim["subtract"]
         return Obj(_methods=self.meths if own else {}, _props=self.props if own else set(), _ctor=self.ctor,
                    _natives={}, _date=d, _wall=None, _eqkey=(d.toordinal(), 0), **({k: v for k, v in self.class_fields.items()} if own else {}),
                    year=d.year, month=d.month, day=d.day, day_of_week=d.weekday(), quarter=(d.month - 1) // 3 + 1,
-                   days_in_month=_calendar.monthrange(d.year, d.month)[1],
-                   set=set_, replace=set_, on=set_, add=add, subtract=subtract, format=lambda f, *a, **k: _format(d, f),
-                   weekday=d.weekday, isoweekday=d.isoweekday, toordinal=d.toordinal)
+                   days_in_month=_calendar.monthrange(d.year, d.month)[1], format=lambda f, *a, **k: _format(d, f),
+                   weekday=d.weekday, isoweekday=d.isoweekday, toordinal=d.toordinal, **prim)
 
-    def datetime(self, w: _dt.datetime, fold: int) -> Obj:
+    def datetime(self, w: _dt.datetime, fold: int, zone=None) -> Obj:
         wd = self
+        zone = self.tz if zone is None else zone
         F = ("year", "month", "day", "hour", "minute", "second", "microsecond")
 
         def fields(kw):
@@ -202,8 +234,8 @@ class World:
                  _natives={}, _wall=w, _date=w.date(), _eqkey=(w,), **({k: v for k, v in self.class_fields.items()} if own else {}),
                  year=w.year, month=w.month, day=w.day, hour=w.hour, minute=w.minute, second=w.second, microsecond=w.microsecond, fold=fold,
                  day_of_week=w.weekday(), quarter=(w.month - 1) // 3 + 1, days_in_month=_calendar.monthrange(w.year, w.month)[1],
-                 tz=self.tz, tzinfo=self.tz, timezone=self.tz, timezone_name="Scenario/Zone",
-                 set=set_, replace=replace, on=on, at=at, add=add, subtract=subtract,
+                 tz=zone, tzinfo=zone, timezone=zone, timezone_name=getattr(zone, "name", ""),
+                 set=set_, replace=replace, on=on, at=at, **({} if (own and self.interpret_add) else dict(add=add, subtract=subtract)),
                  utcoffset=lambda: wd.offset(w, fold), naive=lambda: Stub(_eqkey=(w,), _wall=w),
                  date=lambda: wd.date(w.date()), format=lambda f, *a, **k: _format(w.date(), f), weekday=w.weekday, isoweekday=w.isoweekday)
         return me
